@@ -125,7 +125,8 @@ func (se *SessionExecutor) doMultiStmts(reqCtx *util.RequestContext, sql string)
 
 	//multi-query
 	for index, piece := range piecesSql {
-		setContextSQLFingerprint(reqCtx, sql)
+		// the fingerprint (blacklist lookup, statistics) is that of the statement being run, not of the whole text
+		setContextSQLFingerprint(reqCtx, piece)
 		r, errRet = se.doQuery(reqCtx, piece)
 		if errRet != nil {
 			return nil, errRet
